@@ -1,8 +1,132 @@
 (** C04 -- STREAM subscribers converge to the cache; sync marks the initial
-    snapshot.  Statements over the transition system of Stream/StreamLts.v;
-    each closed by [exact] of a lemma of Stream/StreamProofs.v. *)
+    snapshot.
+
+    Statements over the transition system of Stream/StreamLts.v: N writer
+    goroutines (tree write, then one feed callback per announced leaf), M
+    STREAM subscribers (registration path by path, one cache.Query per path
+    under the tree's read lock, sync marker) and their senders (dequeue, read
+    the leaf's LATEST value, Send).  [reachable h nw subs st]: [st] is reached
+    from the initial state (nw writers, the subscriptions [subs], each started
+    at an arbitrary moment) by SOME schedule -- "for all interleavings" is the
+    universal quantification over [st].  [strict h] switches on the two
+    hypotheses: at most one write in flight per target (one writer goroutine
+    per target implies it) and no subscription path longer than a leaf it is
+    compatible with.  [full_stream st sb] = responses sent ++ the response
+    inside Send ++ what the item in the sender's hand, the queue and the
+    pending feed callbacks addressed to [sb] would be sent as NOW.  Only
+    statements here, each closed by [exact] of a lemma of StreamProofs.v. *)
 From Gnmi Require Import Base.Prelude Stream.StreamLts Stream.StreamProofs.
 Open Scope Z_scope.
+
+(** The invariant: in EVERY reachable state, for every live subscriber whose
+    initial walk is done, replaying (sent ++ in Send ++ in hand ++ queue ++
+    pending announcements) yields, for every path one of its queries selects,
+    exactly the cache's content (value; and timestamp when event-driven
+    suppression is off). *)
+Theorem C04_stream_invariant :
+  forall h nw subs st, strict h -> reachable h nw subs st ->
+  forall i sb, nth_error (st_subs st) i = Some sb -> s_end sb = false ->
+    walk_done sb = true -> s_uo sb = false ->
+    forall p, sub_matches sb p = true ->
+      option_map (proj h) (replay_path p None (full_stream st sb)) = option_map (proj h) (cache_at st p).
+Proof. exact stream_invariant. Qed.
+Print Assumptions C04_stream_invariant.
+
+(** Once nothing is in flight, the responses on the wire replay to the cache. *)
+Theorem C04_stream_converges :
+  forall h nw subs st, strict h -> reachable h nw subs st -> quiescent st ->
+  forall i sb, nth_error (st_subs st) i = Some sb -> s_end sb = false -> s_uo sb = false ->
+    forall p, sub_matches sb p = true ->
+      option_map (proj h) (replay_path p None (s_sent sb)) = option_map (proj h) (cache_at st p).
+Proof. exact stream_converges. Qed.
+Print Assumptions C04_stream_converges.
+
+(** Exactly one sync marker; every leaf attached and selected when one of the
+    subscriber's walks started precedes it in the stream ([trace] = tags of
+    sent ++ in Send ++ in hand ++ queue, which only ever grows at its end). *)
+Theorem C04_snapshot_before_single_sync :
+  forall h nw subs st, strict h -> reachable h nw subs st ->
+  forall i sb, nth_error (st_subs st) i = Some sb -> s_end sb = false ->
+    s_uo sb = false -> walk_done sb = true ->
+    exists pre post, trace st sb = pre ++ TSync :: post /\ ~ In TSync pre /\ ~ In TSync post /\
+      forall l, In l (s_snap sb) -> exists p, leaf_path st l = Some p /\ In (TUpd p) pre.
+Proof. exact snapshot_before_single_sync. Qed.
+Print Assumptions C04_snapshot_before_single_sync.
+
+(** [s_snap] is complete: a walk's start records every attached leaf its path selects. *)
+Theorem C04_walk_begin_snapshot :
+  forall h st s st', step h st (LWalkBegin s) = Some st' ->
+  forall sb sb' k q, nth_error (st_subs st) s = Some sb -> nth_error (st_subs st') s = Some sb' ->
+    s_pc sb = SGap k -> nth_error (s_qs sb) k = Some q ->
+    forall p l, tlookup p (st_tree st) = Some l -> covers q p = true -> In l (s_snap sb').
+Proof. exact walk_begin_snapshot. Qed.
+Print Assumptions C04_walk_begin_snapshot.
+
+(** No sync marker anywhere in the stream before the walk is over. *)
+Theorem C04_no_sync_before_walk_done :
+  forall h nw subs st, strict h -> reachable h nw subs st ->
+  forall i sb, nth_error (st_subs st) i = Some sb -> s_end sb = false ->
+    s_uo sb = false -> walk_done sb = false -> ~ In TSync (trace st sb).
+Proof. exact no_sync_before_walk_done. Qed.
+Print Assumptions C04_no_sync_before_walk_done.
+
+(** updates_only: the sync marker is first, and the only one. *)
+Theorem C04_updates_only_sync_first :
+  forall h nw subs st, strict h -> reachable h nw subs st ->
+  forall i sb, nth_error (st_subs st) i = Some sb -> s_end sb = false -> s_uo sb = true ->
+    exists post, trace st sb = TSync :: post /\ ~ In TSync post.
+Proof. exact updates_only_sync_first. Qed.
+Print Assumptions C04_updates_only_sync_first.
+
+(** updates_only: never a wrong value -- the replay of the stream gives the
+    cache's content or nothing (a leaf older than the subscription that has
+    not changed since). *)
+Theorem C04_updates_only_never_wrong :
+  forall h nw subs st, strict h -> reachable h nw subs st ->
+  forall i sb, nth_error (st_subs st) i = Some sb -> s_end sb = false -> s_uo sb = true ->
+    forall p, reg_match sb p = true ->
+      option_map (proj h) (replay_path p None (full_stream st sb)) = option_map (proj h) (cache_at st p)
+      \/ (cache_at st p <> None /\ replay_path p None (full_stream st sb) = None).
+Proof. exact updates_only_never_wrong. Qed.
+Print Assumptions C04_updates_only_never_wrong.
+
+(** No lost update: the tree write of an accepted update puts the leaf's
+    handle on its way to every subscriber with a registered compatible path;
+    it carries the newest value because the sender reads the leaf when it
+    sends ([C04_stream_invariant] covers everything from there on). *)
+Theorem C04_no_lost_update :
+  forall h nw subs st w p v ts st', strict h -> reachable h nw subs st ->
+  step h st (LWrite w (WUpd p v ts)) = Some st' ->
+  forall l, In (ILeaf l) (feed_of st' w) ->
+    leaf_path st' l = Some p /\ leaf_cont st' l = Some (v, ts) /\ tlookup p (st_tree st') = Some l /\
+    forall sb, In sb (st_subs st') -> reg_match sb p = true -> In (ILeaf l) (pending_feed st' sb).
+Proof. exact no_lost_update. Qed.
+Print Assumptions C04_no_lost_update.
+
+(** The hypotheses are satisfiable and the conclusion is not vacuous: an
+    update landing between registration and walk is delivered coalesced. *)
+Theorem C04_stream_converges_example :
+  strict ex_hyps /\ reachable ex_hyps 1 kf_subs ex_state /\ quiescent ex_state /\
+  exists sb, nth_error (st_subs ex_state) 0 = Some sb /\ s_end sb = false /\ s_uo sb = false /\
+    walk_done sb = true /\ sub_matches sb kf_path = true /\
+    s_sent sb = [RUpd kf_path 2 2 1; RSync] /\ cache_at ex_state kf_path = Some (2, 2).
+Proof. exact stream_converges_example. Qed.
+Print Assumptions C04_stream_converges_example.
+
+(** Without "one write in flight per target" the statement is FALSE (known
+    finding KF-C04-1, DESIGN 7.16): two writers of one target, update || delete
+    of one leaf; the update's announcement overtakes the delete's. *)
+Theorem C04_stream_converges_refuted :
+  exists h nw subs st,
+    h_agree h = true /\ h_owt h = false /\
+    reachable h nw subs st /\ quiescent st /\
+    exists sb p, nth_error (st_subs st) 0 = Some sb /\ s_end sb = false /\ s_uo sb = false /\
+      sub_matches sb p = true /\
+      s_sent sb = [RUpd p 1 1 0; RSync; RDel p 10; RUpd p 5 5 0] /\
+      cache_at st p = None /\
+      option_map (proj h) (replay_path p None (s_sent sb)) <> option_map (proj h) (cache_at st p).
+Proof. exact stream_converges_refuted. Qed.
+Print Assumptions C04_stream_converges_refuted.
 
 (** Every leaf the initial walk selects is a leaf the feed delivers
     (ctree.Query's relation is contained in the match trie's). *)
